@@ -191,4 +191,9 @@ class StreamBody(Contract):
             st.check("P4:the-scope-is-left-with-the-failure-details", ex[0][1][1] == exc)
 
 
-CONTRACTS = [StreamFactory(), StreamBody()]
+# the stream enters / leaves its pre-built ScopeContext around the generator body: "the consumer's state, metrics scope
+# and task group are unaffected ... the stream's scope completes" rests on ScopeContext.__aenter__/__aexit__ restoring the
+# three variables and finishing the metrics scope on *every* path (their C02 obligations, re-used here)
+from .C02 import AsyncScope as _AsyncScope, variant as _variant      # noqa: E402
+
+CONTRACTS = [StreamFactory(), StreamBody(), _variant(_AsyncScope, "C11", ("C02-",))]
